@@ -330,10 +330,14 @@ pub struct Program {
 thread_local! {
     static NEXT_OP: RefCell<usize> = const { RefCell::new(0) };
     pub static PENDING: RefCell<Vec<usize>> = const { RefCell::new(Vec::new()) };
+    /// handles whose own latch clone was polled to completion (polling them again is a
+    /// contract violation of `Future`, so the interpreter never awaits them a second time)
+    pub static DRAINED: RefCell<Vec<usize>> = const { RefCell::new(Vec::new()) };
 }
 pub fn reset_ops() {
     NEXT_OP.with(|n| *n.borrow_mut() = 0);
     PENDING.with(|p| p.borrow_mut().clear());
+    DRAINED.with(|p| p.borrow_mut().clear());
     POOL.with(|p| p.borrow_mut().clear());
     CTXMAP.with(|p| p.borrow_mut().clear());
     STREAMS.with(|p| p.borrow_mut().clear());
@@ -347,6 +351,14 @@ fn fresh_op() -> usize {
     })
 }
 
+fn drained(h: usize) -> bool {
+    DRAINED.with(|d| d.borrow().contains(&h))
+}
+fn inherit_drained(h: usize, h2: usize) {
+    if drained(h) {
+        DRAINED.with(|d| d.borrow_mut().push(h2));
+    }
+}
 fn take(h: usize) -> Option<HandleBox> {
     POOL.with(|p| p.borrow_mut().remove(&h))
 }
@@ -558,6 +570,9 @@ async fn exec_op(c: usize, op: Op) {
             put(h, hb);
         }
         Op::Halt { h } => {
+            if drained(h) {
+                return;
+            }
             let Some(hb) = take(h) else { return };
             match hb {
                 HandleBox::Addr(_, a) => {
@@ -569,6 +584,9 @@ async fn exec_op(c: usize, op: Op) {
             }
         }
         Op::TryHalt { h } => {
+            if drained(h) {
+                return;
+            }
             let Some(mut hb) = take(h) else { return };
             if let HandleBox::Weak(_, w) = &mut hb {
                 let o = begin(c, h, "try_halt", None);
@@ -578,10 +596,14 @@ async fn exec_op(c: usize, op: Op) {
             put(h, hb);
         }
         Op::Await { h } => {
+            if drained(h) {
+                return;
+            }
             let Some(mut hb) = take(h) else { return };
             if let HandleBox::Addr(_, a) = &mut hb {
                 let o = begin(c, h, "await", None);
                 let r = a.wait_mut().await;
+                DRAINED.with(|d| d.borrow_mut().push(h));
                 ret(o, res_str(&r));
             }
             put(h, hb);
@@ -655,6 +677,7 @@ async fn exec_op(c: usize, op: Op) {
             };
             if let Some(n) = n {
                 emit(format!("sync {} {} clone ok {}", c, h, h2));
+                inherit_drained(h, h2);
                 put(h2, n);
             }
             put(h, hb);
@@ -670,6 +693,7 @@ async fn exec_op(c: usize, op: Op) {
             };
             if let Some(n) = n {
                 emit(format!("sync {} {} downgrade ok {}", c, h, h2));
+                inherit_drained(h, h2);
                 put(h2, n);
             }
             put(h, hb);
@@ -685,6 +709,7 @@ async fn exec_op(c: usize, op: Op) {
             match n {
                 Some(Some(n)) => {
                     emit(format!("sync {} {} upgrade ok {}", c, h, h2));
+                    inherit_drained(h, h2);
                     put(h2, n);
                 }
                 Some(None) => emit(format!("sync {} {} upgrade none", c, h)),
@@ -712,6 +737,7 @@ async fn exec_op(c: usize, op: Op) {
                     _ => ("to_addr", HandleBox::Addr(a, addr.clone_box())),
                 };
                 emit(format!("sync {} {} {} ok {}", c, h, name, h2));
+                inherit_drained(h, h2);
                 put(h2, n);
             }
             put(h, hb);
